@@ -700,22 +700,22 @@ def check(run):
     run.rule("R08.8", "force_lock=True only for an op's own output array", floor=1)
     run.rule("R08.5", "lock counter typestate: ++ only in lock, --/del only in release, writeable=True only for the last holder", floor=6)
     run.rule("R08.6", "the op's output array is locked on every tracked, guarded return", floor=1)
-    r08_1(run, "TRACK_GRAPH=T,MEM_GUARD=T", dict(track=True, memguard=True))
+    run.do(r08_1, "TRACK_GRAPH=T,MEM_GUARD=T", dict(track=True, memguard=True))
     if run.tier == "thorough":
         # the remaining specialisations: the acquisition must be dead (no lock without tracking + guard)
         for t, m in ((True, False), (False, True), (False, False)):
             r08_1(run, f"TRACK_GRAPH={'T' if t else 'F'},MEM_GUARD={'T' if m else 'F'}", dict(track=t, memguard=m))
-    r08_2(run)
-    r08_3(run)
-    r08_4(run)
-    r08_4b(run)
-    r08_5(run)
-    r08_7(run)
-    r08_8(run)
-    r08_9(run)
-    r08_10(run)
-    r08_6(run)
+    run.do(r08_2)
+    run.do(r08_3)
+    run.do(r08_4)
+    run.do(r08_4b)
+    run.do(r08_5)
+    run.do(r08_7)
+    run.do(r08_8)
+    run.do(r08_9)
+    run.do(r08_10)
+    run.do(r08_6)
     run.rule("R08.11", "the lock machinery treats `<arr>.base` as an array only under an ndarray type test", floor=3)
-    r08_11(run)
+    run.do(r08_11)
     run.assume("may-raise = explicit `raise` (not `# pragma: no cover`) reachable through resolved repo calls; NumPy/builtin calls "
                "outside the guarded forward call are assumed not to raise")
